@@ -5,6 +5,7 @@ import (
 	"crypto/sha256"
 	"fmt"
 	"runtime"
+	"strings"
 	"sync"
 
 	"github.com/ipld/go-ipld-prime/codec/dagcbor"
@@ -58,6 +59,8 @@ func NewConcWorld() (*ConcWorld, error) {
 	}
 	w.basic2, _ = c.BuildImpl("basic", val)
 	w.ts = histTypeSystem()
+	w.ts.Accumulate(schema.SpawnStruct("HConv", []schema.StructField{schema.SpawnStructField("F", "String", false, false)},
+		schema.SpawnStructRepresentationMap(nil)))
 	w.bindProto = bindnode.Prototype((*HTeam)(nil), w.ts.TypeByName("HTeam"))
 	w.bind = bindnode.Wrap(&HTeam{Lead: HPerson{"ada", 36}, Members: []HPerson{{"bob", 1}, {"eve", 2}}, Tags: HTags{"x"}}, w.ts.TypeByName("HTeam"))
 	// a graph of linked blocks in a read-only store
@@ -141,7 +144,29 @@ func NewConcWorld() (*ConcWorld, error) {
 	return w, nil
 }
 
-var ConcOps = []string{"read-basic", "read-bind", "read-bind-repr", "deep-equal", "copy", "encode-cbor", "encode-json", "walk", "load",
+// HConv: a Go struct field bound to a schema String through a custom converter ("x|y")
+type HConvInner struct{ A, B string }
+type HConv struct{ F HConvInner }
+
+var hconvOption = bindnode.TypedStringConverter(&HConvInner{},
+	func(s string) (interface{}, error) {
+		parts := strings.SplitN(s, "|", 2)
+		if len(parts) != 2 {
+			return nil, fmt.Errorf("HConvInner: no separator in %q", s)
+		}
+		return &HConvInner{parts[0], parts[1]}, nil
+	},
+	func(v interface{}) (string, error) {
+		in, ok := v.(*HConvInner)
+		if !ok {
+			return "", fmt.Errorf("HConvInner: got %T", v)
+		}
+		return in.A + "|" + in.B, nil
+	})
+
+// (bind-plain comes before bind-converter: the sequential reference runs the list twice, so the refusal is seen both
+// before and after the same pair was bound with the converter)
+var ConcOps = []string{"bind-plain", "bind-converter", "read-basic", "read-bind", "read-bind-repr", "deep-equal", "copy", "encode-cbor", "encode-json", "walk", "load",
 	"loadraw", "build-basic", "build-bind", "wrap-explicit", "proto-inferred", "struct-lookup", "ts-clone", "ts-merge"}
 
 func projStr(n datamodel.Node) (string, error) {
@@ -307,6 +332,19 @@ func (w *ConcWorld) Do(op string, g int, fresh *freshStruct) (string, error) {
 			return "", err
 		}
 		return projStr(nb.Build())
+	case "bind-plain":
+		// The Go type HConv holds a Go STRUCT where the schema type HConv has a String: without a converter the pair is
+		// incompatible and the binding must be refused -- whoever else bound the same pair before, and however.
+		var n datamodel.Node
+		if p := model.Safe(func() { n = bindnode.Wrap(&HConv{F: HConvInner{"x", "y"}}, w.ts.TypeByName("HConv")) }); p != nil {
+			return "refused", nil
+		}
+		r, err := readAll(n)
+		return "accepted: " + r, err
+	case "bind-converter":
+		// the same pair WITH the converter that makes it compatible
+		n := bindnode.Wrap(&HConv{F: HConvInner{"x", "y"}}, w.ts.TypeByName("HConv"), hconvOption)
+		return readAll(n)
 	case "struct-lookup":
 		n := w.bind.(datamodel.Node)
 		if fresh != nil {
